@@ -937,6 +937,8 @@ func c11(c *core.Ctx) {
 	// "404 for unknown paths without running application code": the only patterns registered are the exact
 	// join(base, service/method) paths of the descriptor entries — no subtree pattern, no alias (C12/R4)
 	c.Borrow("C12", map[string]string{"R4": "R11"}, c12)
+	// "always answers well-formed" for every ResponseWriter: a send must not fail because the writer cannot flush (C01/R12)
+	c.Borrow("C01", map[string]string{"R12": "R12"}, c01)
 
 }
 
